@@ -1,11 +1,12 @@
 """C13 - the macro front-end is total."""
+import parsetie
 import t1
 import t2
 from vlib import hexs, unhexs
 
 
 def run(ck):
-    ck.prove(["AsModel.Theorems.C13"])
+    ck.prove(["AsModel.Theorems.C13", "AsModel.Theorems.C13Parse"])
     ck.build_harness("inproc")
     inputs, outs = t1.run(ck)
     dist = {}
@@ -35,11 +36,12 @@ def run(ck):
                    len(inputs), nontriv, 0, dist,
                    samples=[dict(kind=k, invocation=t[:120], status=o.split("\t")[0]) for (k, t), o in list(zip(inputs, outs))[:1] + list(zip(inputs, outs))[-2:]],
                    rule="repository corpus + edge patterns + seeded generated patterns, all truncations and single-token edits (sampled per input in the quick tier), random token soup; distinct = distinct texts; non-trivial = not an unmodified valid input")
+    parsetie.record(ck, [t for _, t in inputs], outs, "C13: which inputs are accepted, and with which AST")
     res = t2.run(ck)
     mm = t2.record(ck, res, ("status",), "which accepted inputs reach a panic site during expansion")
     if mm and not [v for v in ck.violations if not v["no_input"]]:
         ck.report("corr:T2-status", "the model's panic-site prediction no longer matches the implementation", dict(first=mm[:3], broken="correspondence T2/status; C13_expand_no_panic depends on it"), no_input=True)
-    ck.assumptions += ["syn's own parsers (Expr, Path, ExprClosure, literals) are trusted not to panic; stack exhaustion on deeply nested input is not explored; the parser itself is tied differentially (its Lean model is a growth item), the expansion's panic sites are modelled and proved unreachable for well-formed ASTs"]
+    ck.assumptions += ["syn's own parsers (Expr, Path, ExprClosure, literals) are trusted not to panic; stack exhaustion on deeply nested input is not explored; the parser is modelled (Parse.lean, with syn's answers as oracle tables quantified universally in the theorems) and tied on every T1 input; None-delimited groups (macro_rules fragments) are not in the parser model; the model parser recurses on fuel, out-of-fuel is a third outcome in the theorems and is never observed within the budget the driver uses (2 x tokens + 16)"]
 
 
 def re_key(msg):
